@@ -7,6 +7,7 @@ fn parse_fd(e: &Sexp) -> FiniteDomain {
     match l[0].atom() {
         "i" => FiniteDomain::from(l[1].int()..=l[2].int()),
         "v" => FiniteDomain::from(l[1..].iter().map(|x| x.int()).collect::<Vec<isize>>()),
+        "s" => { let v = l[1..].iter().map(|x| x.int()).collect::<Vec<isize>>(); FiniteDomain::from(&v[..]) }
         "n" => FiniteDomain::from(l[1].int()),
         _ => panic!("harness: bad fd"),
     }
